@@ -318,6 +318,18 @@ def run(ctx, rep):
     for o in r3.obligations:
         if o["instance"].startswith("30-day:"):
             rep.ob("R6", o["instance"], o["ok"], o["detail"], o["site"], key="R6:" + o["instance"])
+    # "each leg's allowable cost": a same-day leg is costed at the average of the shares that are actually available to it —
+    # one weight per lot, the lot's availability — and every leg's cost is unit cost × the matched quantity (shared with
+    # C03-R1/R4; seeded change C01-s5 averaged over everything bought that day)
+    import rules.c03 as c03
+    r5 = Report("tmp")
+    c03.pair_costs(R, r5)
+    c03.same_day_weights(R, r5)
+    for o in r5.obligations:
+        rep.ob("R9", o["instance"], o["ok"], o["detail"], o["site"], key="R9:" + o["instance"])
+    for v in r5.violations:
+        if not any(o["instance"] == v["instance"] for o in r5.obligations):
+            rep.ob("R9", v["instance"], False, v["detail"], v["site"], key="R9:" + v["instance"])
     # "Same Day first": what the 30-day rule leaves on a later acquisition date for that date's own disposals is the TOTAL sold
     # that day — every sale line of the date and security, adjacent or not (shared with C06-R3; seeded change C01-s4)
     import rules.c06 as c06
